@@ -100,7 +100,10 @@ class Contract:
     def __init__(self, key, params, requires=(), ensures=None, raises=None, modifies=(), loops=None,
                  bind=None, returns=None, cases=None, inherits=None, trusted=False, expost=None,
                  decreases=None, pure=False, note="", exc_modifies=None, ghost=None, allow_exc=(), props=None,
-                 theories=(), local_types=None):
+                 theories=(), local_types=None, chain=()):
+        # labels of postconditions that, once stated as obligations of their own, are available as hypotheses for the
+        # postconditions listed after them (a proof is split into steps; each step is still proved)
+        self.chain = tuple(chain)
         self.local_types = {k: parse_type(v) for k, v in (local_types or {}).items()}
         self.props = list(props) if props is not None else list(DEFAULT_PROPS)
         self.theories = tuple(theories)
